@@ -559,6 +559,93 @@ func erasedDump(v reflect.Value) string {
 	return b.String()
 }
 
+// firstDiff returns the path of the first place where two values of the same type differ ("" if none).
+func firstDiff(a, b reflect.Value, path string) string {
+	if a.Kind() != b.Kind() {
+		return path
+	}
+	switch a.Kind() {
+	case reflect.Ptr:
+		if a.IsNil() != b.IsNil() {
+			return path
+		}
+		if a.IsNil() {
+			return ""
+		}
+		return firstDiff(a.Elem(), b.Elem(), path+"->")
+	case reflect.Slice:
+		if a.IsNil() != b.IsNil() || a.Len() != b.Len() {
+			return path
+		}
+		for i := 0; i < a.Len(); i++ {
+			if d := firstDiff(a.Index(i), b.Index(i), fmt.Sprintf("%s[%d]", path, i)); d != "" {
+				return d
+			}
+		}
+	case reflect.Array:
+		for i := 0; i < a.Len(); i++ {
+			if d := firstDiff(a.Index(i), b.Index(i), fmt.Sprintf("%s[%d]", path, i)); d != "" {
+				return d
+			}
+		}
+	case reflect.Map:
+		if a.IsNil() != b.IsNil() || a.Len() != b.Len() {
+			return path
+		}
+		for _, k := range sortedKeys(a) {
+			e := b.MapIndex(k)
+			if !e.IsValid() {
+				return fmt.Sprintf("%s{%v}", path, k.Interface())
+			}
+			if d := firstDiff(a.MapIndex(k), e, fmt.Sprintf("%s{%v}", path, k.Interface())); d != "" {
+				return d
+			}
+		}
+	case reflect.Interface:
+		if a.IsNil() != b.IsNil() {
+			return path
+		}
+		if a.IsNil() {
+			return ""
+		}
+		if a.Elem().Type() != b.Elem().Type() {
+			return path
+		}
+		n := a.Elem().Type().String()
+		if a.Elem().Kind() == reflect.Ptr {
+			n = qual(a.Elem().Type().Elem())
+		}
+		return firstDiff(a.Elem(), b.Elem(), path+"("+n+")")
+	case reflect.Struct:
+		for i := 0; i < a.NumField(); i++ {
+			if d := firstDiff(a.Field(i), b.Field(i), path+"."+a.Type().Field(i).Name); d != "" {
+				return d
+			}
+		}
+	case reflect.Bool:
+		if a.Bool() != b.Bool() {
+			return path
+		}
+	case reflect.Int, reflect.Int8, reflect.Int16, reflect.Int32, reflect.Int64:
+		if a.Int() != b.Int() {
+			return path
+		}
+	case reflect.Uint, reflect.Uint8, reflect.Uint16, reflect.Uint32, reflect.Uint64, reflect.Uintptr:
+		if a.Uint() != b.Uint() {
+			return path
+		}
+	case reflect.Float32, reflect.Float64:
+		if math.Float64bits(a.Float()) != math.Float64bits(b.Float()) {
+			return path
+		}
+	case reflect.String:
+		if a.String() != b.String() {
+			return path
+		}
+	}
+	return ""
+}
+
 // ---------------------------------------------------------------- mutation
 
 // mutate changes every reachable leaf / element / map entry of v in turn, calls probe after each change, restores.
@@ -712,6 +799,7 @@ type caseRec struct {
 	Bad           []string `json:"bad,omitempty"`
 	TypedNil      string   `json:"typed_nil,omitempty"`
 	CopyNilIface  bool     `json:"copy_is_untyped_nil,omitempty"`
+	DiffPath      string   `json:"diff_path,omitempty"`
 }
 
 var caseNo int
@@ -785,6 +873,18 @@ func runCase(tname string, orig reflect.Value, method string, variant string, ty
 	default:
 		rec.Equal = !result.IsNil() && reflect.DeepEqual(result.Elem().Interface(), orig.Interface())
 		rec.CopyNilIface = result.IsNil()
+	}
+	if !rec.Equal {
+		cmp := result
+		if cmp.Kind() == reflect.Interface && !cmp.IsNil() {
+			cmp = cmp.Elem()
+		}
+		if cmp.Type() == subject.Type() {
+			rec.DiffPath = firstDiff(subject, cmp, tname)
+		}
+		if rec.DiffPath == "" {
+			rec.DiffPath = tname
+		}
 	}
 	// (3) mutation, both directions
 	cview := result
